@@ -161,6 +161,15 @@ def placement_exprs(repo=None):
     return m, wf, key, rf
 
 
+def _is_groupby(e):
+    return isinstance(e, ast.Call) and pyfront.call_name(e) in ("itertools.groupby", "groupby")
+
+
+def _defs_of(wf, name):
+    return [n.value for n in ast.walk(wf) if isinstance(n, ast.Assign) and len(n.targets) == 1 and isinstance(n.targets[0], ast.Name)
+            and n.targets[0].id == name]
+
+
 def _writer_loop(m, wf):
     """(the loop over the groupby result, name of the per-group file index)"""
     loop = None
@@ -168,6 +177,11 @@ def _writer_loop(m, wf):
         if isinstance(n, ast.For) and any(isinstance(c, ast.Call) and pyfront.call_name(c) in ("itertools.groupby", "groupby")
                                           for c in ast.walk(n.iter)):
             loop = n
+    if loop is None:
+        # the groups bound to a local first (possibly on one branch only: r5 judges the other definitions of that local)
+        for n in ast.walk(wf):
+            if isinstance(n, ast.For) and isinstance(n.iter, ast.Name) and any(_is_groupby(d) for d in _defs_of(wf, n.iter.id)):
+                loop = n
     if loop is None or not isinstance(loop.target, ast.Tuple) or not isinstance(loop.target.elts[0], ast.Name):
         raise AnalysisError("%s: loop over the groupby result not recognised" % m.qualname)
     return loop, loop.target.elts[0].id
@@ -473,20 +487,62 @@ def r4_subdir_per_file(repo=None):
     return r
 
 
+def r5_groups_are_groupby_groups(repo=None):
+    """Every sample is stored in the file of *its own* index only if the key is evaluated for every sample: the groups the
+    per-file loop iterates over are the result of groupby(samples, key).  A group formed from the ungrouped input under the key
+    of one of its elements (a 'first and last agree' short cut) stores the samples in between in that file whatever their
+    index - for unsorted input the reader, which recomputes the file from the index, does not find them."""
+    r = Rule("C13.R5", "the per-file groups are groupby groups: the key is evaluated for every sample")
+    try:
+        m, wf, key, rf = placement_exprs(repo)
+    except NoPerSampleKey as e:
+        return _no_key_violation(r, e)
+    loop, idx = _writer_loop(m, wf)
+    gb = [c for c in ast.walk(wf) if _is_groupby(c)]
+    inputs = {norm(ast.unparse(c.args[0])) for c in gb if c.args}
+    if any(_is_groupby(c) for c in ast.walk(loop.iter)):
+        r.ok("%s:%s %s" % (m.rel, loop.lineno, m.qualname), "the loop iterates over groupby(%s, <key>) itself" % ", ".join(sorted(inputs)))
+    elif isinstance(loop.iter, ast.Name):
+        for d in _defs_of(wf, loop.iter.id):
+            if _is_groupby(d):
+                r.ok("%s:%s %s" % (m.rel, d.lineno, m.qualname), "`%s` = groupby(%s, <key>)" % (loop.iter.id, ", ".join(sorted(inputs))))
+                continue
+            whole = None
+            if isinstance(d, (ast.List, ast.Tuple)):
+                for e in d.elts:
+                    if isinstance(e, ast.Tuple) and len(e.elts) == 2 and norm(ast.unparse(e.elts[1])) in inputs:
+                        whole = e
+            if whole is not None:
+                r.violation(m.rel, m.qualname, "%s = %s" % (loop.iter.id, norm(ast.unparse(d))[:70]), "a group is the whole ungrouped input "
+                            "`%s` under one key (`%s`): the key is not evaluated for the samples of the group, so a sample whose own "
+                            "index belongs to another file is stored in this one and the reader, which recomputes the file from the "
+                            "index, does not find it" % (norm(ast.unparse(whole.elts[1])), norm(ast.unparse(whole.elts[0]))[:50]), line=d.lineno)
+            else:
+                raise AnalysisError("%s: definition `%s = %s` of the per-file groups not recognised" % (
+                    m.qualname, loop.iter.id, norm(ast.unparse(d))[:60]))
+    else:
+        raise AnalysisError("%s: iterable of the per-file loop not recognised" % m.qualname)
+    r.guard(1)
+    return r
+
+
 def rules(repo=None):
     return [lambda: r1_exact_placement(repo), lambda: r2_one_formula(repo), lambda: r3_format_agreement(repo),
-            lambda: r4_subdir_per_file(repo)]
+            lambda: r4_subdir_per_file(repo), lambda: r5_groups_are_groupby_groups(repo)]
 
 
 EXPLANATION = (
-    "R1: float-taint analysis of the writer's grouping key (lambda, nested or module function, method), of every local in the "
-    "slice of the opened path, of the reader's bounds and of every file argument handed to the per-file reader (true division, longdouble samples_per_second, float literals are "
-    "sources; taint survives int()/np.uint64()). R2: straight-line symbolic evaluation of writer and reader followed by a "
-    "canonical form for nested floor divisions of integer products: the timestamp printed into the file name for sample k and "
-    "the sub-directory timestamp must be the same function of (k, d, n, cadences) on both sides. R3: regular-language equality "
-    "of the file-name and sub-directory formats (constants folded) and inclusion in the listing grammar. R4: every local in the "
-    "backward slice of the opened path is assigned on every iteration before the open (must-pass), and the slice reaches the "
-    "group's file index.")
+    "R1: float-taint analysis of the writer's grouping key (lambda, nested or module function, method), of every local in"
+    " the slice of the opened path, of the reader's bounds and of every file argument handed to the per-file reader (true"
+    ' division, longdouble samples_per_second, float literals are sources; taint survives int()/np.uint64()). R2: '
+    'straight-line symbolic evaluation of writer and reader followed by a canonical form for nested floor divisions of '
+    'integer products: the timestamp printed into the file name for sample k and the sub-directory timestamp must be the '
+    'same function of (k, d, n, cadences) on both sides. R3: regular-language equality of the file-name and sub-directory'
+    ' formats (constants folded) and inclusion in the listing grammar. R4: every local in the backward slice of the '
+    "opened path is assigned on every iteration before the open (must-pass), and the slice reaches the group's file "
+    'index. R5: the iterable of the per-file loop is the groupby result itself (or a local all of whose definitions are);'
+    ' a definition that pairs the whole ungrouped input with the key of one element is reported (samples stored without '
+    'their own key being evaluated), any other definition is not decided (exit 2).')
 TECHNIQUE = ("Python ast; float-taint dataflow; symbolic straight-line evaluation + canonical form of nested floor divisions "
              "(writer/reader sibling agreement); CFG must-pass over the backward slice; regular-language algebra")
 ASSUMPTIONS = ["Python int arithmetic is exact; floor(floor(x/a)/b) = floor(x/(a*b)) for positive integers",
